@@ -71,7 +71,8 @@ func Check(w *symex.World, plan *Plan, opt Options) int {
 	reached := map[string]int{}
 	paths, forks, queries, asserts, assertsSMT, triv := 0, 0, 0, 0, 0, 0
 	sat, unsat, unk := 0, 0, 0
-	var solverT time.Duration
+	var solverT, oneShotT time.Duration
+	oneShotQ, oneShotD := 0, 0
 	steps := 0
 	nontrivial := 0
 	var samples []sample
@@ -98,6 +99,9 @@ func Check(w *symex.World, plan *Plan, opt Options) int {
 		for k, v := range ex.Reached {
 			reached[k] += v
 		}
+		oneShotQ += ex.OneShotQueries
+		oneShotD += ex.OneShotDecided
+		oneShotT += ex.OneShotTime
 		paths += ex.Paths
 		forks += ex.Forks
 		queries += jr.SolverQ
@@ -276,7 +280,8 @@ func Check(w *symex.World, plan *Plan, opt Options) int {
 			"assertions_by_constant_folding": triv,
 			"assertions_by_solver":           assertsSMT,
 			"assertion_labels_reached":       reached,
-			"solver":                         map[string]interface{}{"backend": solverName(opt), "queries": queries, "sat": sat, "unsat": unsat, "unknown": unk, "time_s": solverT.Seconds(), "per_query_timeout_ms": opt.TimeoutMs},
+			"solver":                         map[string]interface{}{"backend": solverName(opt), "queries": queries, "sat": sat, "unsat": unsat, "unknown": unk, "time_s": solverT.Seconds(), "per_query_timeout_ms": opt.TimeoutMs,
+				"escalated_one_shot_runs": oneShotQ, "escalated_decided": oneShotD, "escalated_time_s": oneShotT.Seconds(), "escalation_portfolio": "fresh z3 4.8.12, z3 5.1 (z3-new), cvc5 1.0 on the complete script", "escalation_timeout_ms": opt.OneShotMs},
 			"native_replays":                 map[string]int{"run": replayed, "reproduced": reproduced},
 			"cross_validation":               map[string]int{"native_runs_compared_with_concrete_interpretation": xv.runs, "agree": xv.agree},
 			"known_findings_printed":         sortedKeysB(knownPrinted),
